@@ -23,6 +23,9 @@ var registry = map[string]func() *check.Property{
 	"C14": C14,
 	"C15": C15,
 	"C17": C17,
+	"C18": C18,
+	"C19": C19,
+	"C20": C20,
 }
 
 func ByID(id string) *check.Property {
